@@ -13,7 +13,7 @@ import sys
 import project  # noqa  (puts the repository under test on sys.path)
 
 HERE = os.path.dirname(os.path.abspath(__file__))
-COLS = ["n", "m", "s", "u", "b", "d", "e", "dd", "tt", "du"]
+COLS = ["n", "m", "s", "u", "b", "d", "e", "dd", "tt", "du", "g"]
 
 
 def pyval(v, flavour):
@@ -80,7 +80,7 @@ class RawSqlite:
         self.groups = groups
         self.conn = sqlite3.connect(":memory:")
         self.conn.execute("CREATE TABLE row (id INTEGER PRIMARY KEY, grp INTEGER, n INTEGER, m INTEGER, s TEXT, u TEXT, b INTEGER, d TEXT, "
-                          "e TEXT, dd TEXT, tt TEXT, du TEXT)")
+                          "e TEXT, dd TEXT, tt TEXT, du TEXT, g TEXT)")
         self.loaded = set()
 
     def ensure(self, cols):
@@ -180,6 +180,7 @@ class SaDb:
             dd = sa.Column(sa.Date)
             tt = sa.Column(sa.Time)
             du = sa.Column(sa.Interval)
+            g = sa.Column(sa.String)            # GUIDs kept as text
 
         self.Row = Row
         self.Base = Base
